@@ -3,4 +3,493 @@ import Pff.Props.C10
 /-! Helper lemmas for the per-file correction logic (C01, C03, C04, C13). -/
 namespace Pff.Ecc
 
+open Pff.Layout
+
+/-! ## one block -/
+
+theorem processBlock_cases (O : Ops) (fast : Bool) (b : AsmBlock) :
+    processBlock O fast b = (b.msg, .intact) ∨ processBlock O fast b = (b.msg, .failed) ∨
+      ∃ m' e', O.dec b.k b.msg b.ecc = some (m', e') ∧
+        (O.H m' = b.hash ∨ O.chk b.k m' e' = true) ∧ processBlock O fast b = (m', .repaired) := by
+  unfold processBlock
+  by_cases hn : needsRepair O fast b = true
+  · rw [if_pos hn]
+    cases hd : O.dec b.k b.msg b.ecc with
+    | none => exact Or.inr (Or.inl rfl)
+    | some p =>
+      obtain ⟨m', e'⟩ := p
+      by_cases hc : (decide (O.H m' = b.hash) || O.chk b.k m' e') = true
+      · refine Or.inr (Or.inr ⟨m', e', rfl, ?_, ?_⟩)
+        · simpa only [Bool.or_eq_true, decide_eq_true_eq] using hc
+        · simp only [hc, if_true]
+      · refine Or.inr (Or.inl ?_)
+        simp only [hc, Bool.false_eq_true, if_false]
+  · rw [if_neg hn]
+    exact Or.inl rfl
+
+theorem processBlock_length (O : Ops)
+    (hlen : ∀ k m e m' e', O.dec k m e = some (m', e') → m'.length = m.length)
+    (fast : Bool) (b : AsmBlock) : (processBlock O fast b).1.length = b.msg.length := by
+  rcases processBlock_cases O fast b with h | h | ⟨m', e', hd, _, h⟩
+  · rw [h]
+  · rw [h]
+  · rw [h]; exact hlen _ _ _ _ _ hd
+
+/-! ## the loop -/
+
+/-- `runLoop` from an arbitrary state and starting block number -/
+def runFrom (O : Ops) (fast : Bool) (thr : Nat) (s : LoopSt) (n : Nat) (l : List AsmBlock) : LoopSt :=
+  (l.zipIdx n).foldl (fun s bi => loopStep O fast thr s bi.2 bi.1) s
+
+theorem runLoop_eq_runFrom (O : Ops) (fast : Bool) (thr : Nat) (l : List AsmBlock) :
+    runLoop O fast thr l = runFrom O fast thr { written := [] } 0 l := rfl
+
+theorem runFrom_nil (O : Ops) (fast : Bool) (thr : Nat) (s : LoopSt) (n : Nat) :
+    runFrom O fast thr s n [] = s := rfl
+
+theorem runFrom_cons (O : Ops) (fast : Bool) (thr : Nat) (s : LoopSt) (n : Nat) (b : AsmBlock)
+    (l : List AsmBlock) :
+    runFrom O fast thr s n (b :: l) = runFrom O fast thr (loopStep O fast thr s n b) (n + 1) l := by
+  simp only [runFrom, List.zipIdx_cons, List.foldl_cons]
+
+theorem runFrom_append (O : Ops) (fast : Bool) (thr : Nat) (s : LoopSt) (n : Nat)
+    (l1 l2 : List AsmBlock) :
+    runFrom O fast thr s n (l1 ++ l2) =
+      runFrom O fast thr (runFrom O fast thr s n l1) (n + l1.length) l2 := by
+  simp only [runFrom, List.zipIdx_append, List.foldl_append]
+
+theorem loopStep_stopped (O : Ops) (fast : Bool) (thr : Nat) (s : LoopSt) (i : Nat) (b : AsmBlock)
+    (h : s.stopped = true) : loopStep O fast thr s i b = s := by
+  unfold loopStep
+  rw [if_pos h]
+
+theorem loopStep_run (O : Ops) (fast : Bool) (thr : Nat) (s : LoopSt) (i : Nat) (b : AsmBlock)
+    (h : ¬ s.stopped = true) :
+    (loopStep O fast thr s i b).written = s.written ++ [(processBlock O fast b).1] ∧
+    (loopStep O fast thr s i b).partialFail =
+      (s.partialFail || decide ((processBlock O fast b).2 = .failed)) := by
+  unfold loopStep
+  rw [if_neg h]
+  rcases hp : processBlock O fast b with ⟨w, st⟩
+  cases st <;> simp
+
+theorem runFrom_stopped (O : Ops) (fast : Bool) (thr : Nat) :
+    ∀ (l : List AsmBlock) (s : LoopSt) (n : Nat), s.stopped = true → runFrom O fast thr s n l = s := by
+  intro l
+  induction l with
+  | nil => intro s n _; rfl
+  | cons b l ih =>
+    intro s n h
+    rw [runFrom_cons, loopStep_stopped O fast thr s n b h]
+    exact ih s (n + 1) h
+
+/-- the state after the loop: `m` blocks were processed and written, in order; the loop went
+through all the blocks unless it bailed out; `partialFail` records exactly the failures among the
+blocks processed -/
+theorem runFrom_inv (O : Ops) (fast : Bool) (thr : Nat) :
+    ∀ (l : List AsmBlock) (s : LoopSt) (n : Nat),
+      ∃ m, m ≤ l.length ∧
+        (runFrom O fast thr s n l).written =
+          s.written ++ (l.take m).map (fun b => (processBlock O fast b).1) ∧
+        ((runFrom O fast thr s n l).stopped = true ∨ m = l.length) ∧
+        (runFrom O fast thr s n l).partialFail =
+          (s.partialFail ||
+            (l.take m).any (fun b => decide ((processBlock O fast b).2 = .failed))) := by
+  intro l
+  induction l with
+  | nil =>
+    intro s n
+    refine ⟨0, Nat.le_refl _, ?_, Or.inr rfl, ?_⟩
+    · simp only [runFrom_nil, List.take_nil, List.map_nil, List.append_nil]
+    · simp only [runFrom_nil, List.take_nil, List.any_nil, Bool.or_false]
+  | cons b l ih =>
+    intro s n
+    by_cases hs : s.stopped = true
+    · rw [runFrom_stopped O fast thr _ s n hs]
+      refine ⟨0, Nat.zero_le _, ?_, Or.inl hs, ?_⟩
+      · simp only [List.take_zero, List.map_nil, List.append_nil]
+      · simp only [List.take_zero, List.any_nil, Bool.or_false]
+    · rw [runFrom_cons]
+      obtain ⟨m, hm, hw, hst, hpf⟩ := ih (loopStep O fast thr s n b) (n + 1)
+      obtain ⟨h1, h2⟩ := loopStep_run O fast thr s n b hs
+      refine ⟨m + 1, by simp only [List.length_cons]; omega, ?_, ?_, ?_⟩
+      · rw [hw, h1]
+        simp only [List.take_succ_cons, List.map_cons, List.append_assoc, List.singleton_append]
+      · rcases hst with h | h
+        · exact Or.inl h
+        · exact Or.inr (by simp only [List.length_cons, h])
+      · rw [hpf, h2]
+        simp only [List.take_succ_cons, List.any_cons, Bool.or_assoc]
+
+theorem runLoop_inv (O : Ops) (fast : Bool) (thr : Nat) (l : List AsmBlock) :
+    ∃ m, m ≤ l.length ∧
+      (runLoop O fast thr l).written = (l.take m).map (fun b => (processBlock O fast b).1) ∧
+      (runLoop O fast thr l).written.length = m ∧
+      ((runLoop O fast thr l).stopped = true ∨ m = l.length) ∧
+      (runLoop O fast thr l).partialFail =
+        (l.take m).any (fun b => decide ((processBlock O fast b).2 = .failed)) := by
+  obtain ⟨m, hm, hw, hst, hpf⟩ := runFrom_inv O fast thr l { written := [] } 0
+  rw [← runLoop_eq_runFrom] at hw hst hpf
+  refine ⟨m, hm, ?_, ?_, hst, ?_⟩
+  · simpa only [List.nil_append] using hw
+  · rw [hw]
+    simp only [List.nil_append, List.length_map, List.length_take]
+    omega
+  · simpa only [Bool.false_or] using hpf
+
+theorem runLoop_written_length_le (O : Ops) (fast : Bool) (thr : Nat) (l : List AsmBlock) :
+    (runLoop O fast thr l).written.length ≤ l.length := by
+  obtain ⟨m, hm, _, hl, _⟩ := runLoop_inv O fast thr l
+  omega
+
+theorem runLoop_written_getElem? (O : Ops) (fast : Bool) (thr : Nat) (l : List AsmBlock) (i : Nat)
+    (hi : i < (runLoop O fast thr l).written.length) :
+    ∃ b, l[i]? = some b ∧ (runLoop O fast thr l).written[i]? = some (processBlock O fast b).1 := by
+  obtain ⟨m, hm, hw, hl, _⟩ := runLoop_inv O fast thr l
+  have him : i < m := by omega
+  have hil : i < l.length := by omega
+  refine ⟨l[i], List.getElem?_eq_getElem hil, ?_⟩
+  rw [hw, List.getElem?_map, List.getElem?_take_of_lt him, List.getElem?_eq_getElem hil]
+  rfl
+
+theorem runLoop_partialFail (O : Ops) (fast : Bool) (thr : Nat) (l : List AsmBlock) (i : Nat)
+    (hi : i < l.length) (hproc : i < (runLoop O fast thr l).written.length)
+    (hf : (processBlock O fast l[i]).2 = .failed) :
+    (runLoop O fast thr l).partialFail = true := by
+  obtain ⟨m, hm, _, hl, _, hpf⟩ := runLoop_inv O fast thr l
+  rw [hpf, List.any_eq_true]
+  have him : i < (l.take m).length := by rw [List.length_take]; omega
+  refine ⟨(l.take m)[i], List.getElem_mem him, ?_⟩
+  rw [List.getElem_take]
+  simpa only [decide_eq_true_eq] using hf
+
+theorem runLoop_take (O : Ops) (fast : Bool) (thr : Nat) (l : List AsmBlock) (j : Nat) :
+    (runLoop O fast thr l).written.take j = (runLoop O fast thr (l.take j)).written.take j := by
+  by_cases hj : l.length ≤ j
+  · rw [List.take_of_length_le hj]
+  · have hsplit : runLoop O fast thr l =
+        runFrom O fast thr (runLoop O fast thr (l.take j)) (0 + (l.take j).length) (l.drop j) := by
+      rw [runLoop_eq_runFrom, runLoop_eq_runFrom, ← runFrom_append, List.take_append_drop]
+    obtain ⟨m, hm, hw, hl, hst, _⟩ := runLoop_inv O fast thr (l.take j)
+    rcases hst with hst | hst
+    · rw [hsplit, runFrom_stopped O fast thr _ _ _ hst]
+    · obtain ⟨m2, _, hw2, _, _⟩ :=
+        runFrom_inv O fast thr (l.drop j) (runLoop O fast thr (l.take j)) (0 + (l.take j).length)
+      rw [hsplit, hw2]
+      have hlen : (runLoop O fast thr (l.take j)).written.length = j := by
+        rw [hl, hst, List.length_take]; omega
+      rw [List.take_append_of_le_length (by omega)]
+
+/-! ## lengths -/
+
+theorem flatten_length_map_congr {α : Type} (l : List α) (f g : α → Bytes)
+    (h : ∀ a ∈ l, (f a).length = (g a).length) :
+    (l.map f).flatten.length = (l.map g).flatten.length := by
+  induction l with
+  | nil => rfl
+  | cons a l ih =>
+    simp only [List.map_cons, List.flatten_cons, List.length_append]
+    rw [h a List.mem_cons_self, ih (fun x hx => h x (List.mem_cons_of_mem _ hx))]
+
+theorem flatten_length_take_le {α : Type} (l : List α) (f : α → Bytes) (m : Nat) :
+    ((l.take m).map f).flatten.length ≤ (l.map f).flatten.length := by
+  have h : (l.map f).flatten = ((l.take m).map f).flatten ++ ((l.drop m).map f).flatten := by
+    rw [← List.flatten_append, ← List.map_append, List.take_append_drop]
+  rw [h, List.length_append]
+  omega
+
+/-- header tool: the messages fit in what is left of the header -/
+theorem assembleHeader_msgs_length (k hashLen mbs readLen : Nat) (content track : Bytes) :
+    ∀ fuel i j,
+      (((assembleHeader k hashLen mbs readLen content track fuel i j).map (·.msg)).flatten).length ≤
+        (content.take readLen).length - i := by
+  intro fuel
+  induction fuel with
+  | zero => intro i j; simp only [assembleHeader, List.map_nil, List.flatten_nil, List.length_nil, Nat.zero_le]
+  | succ fuel ih =>
+    intro i j
+    simp only [assembleHeader]
+    split
+    · have := ih (i + k) (j + hashLen + (mbs - k))
+      simp only [List.map_cons, List.flatten_cons, List.length_append, List.length_take,
+        List.length_drop] at this ⊢
+      omega
+    · simp only [List.map_nil, List.flatten_nil, List.length_nil, Nat.zero_le]
+
+/-- whole-file tool: the messages fit in what is left of the file -/
+theorem assemble_msgs_length (kOf : Nat → Nat) (hashLen mbs : Nat) (content track : Bytes) :
+    ∀ fuel cur e,
+      (((assemble kOf hashLen mbs content track fuel cur e).map (·.msg)).flatten).length ≤
+        content.length - cur := by
+  intro fuel
+  induction fuel with
+  | zero => intro cur e; simp only [assemble, List.map_nil, List.flatten_nil, List.length_nil, Nat.zero_le]
+  | succ fuel ih =>
+    intro cur e
+    simp only [assemble]
+    split
+    · split
+      · simp only [List.map_nil, List.flatten_nil, List.length_nil, Nat.zero_le]
+      · have := ih (cur + ((content.drop cur).take (kOf cur)).length)
+          (e + ((track.drop e).take (hashLen + (mbs - kOf cur))).length)
+        simp only [List.map_cons, List.flatten_cons, List.length_append, List.length_take,
+          List.length_drop] at this ⊢
+        omega
+    · simp only [List.map_nil, List.flatten_nil, List.length_nil, Nat.zero_le]
+
+/-! ## the two per-file procedures -/
+
+theorem header_body_length (O : Ops)
+    (hlen : ∀ k m e m' e', O.dec k m e = some (m', e') → m'.length = m.length)
+    (fast : Bool) (thr : Nat) (blocks : List AsmBlock) :
+    ((runLoop O fast thr blocks).written ++
+        (blocks.drop (runLoop O fast thr blocks).written.length).map (·.msg)).flatten.length =
+      ((blocks.map (·.msg)).flatten).length := by
+  obtain ⟨m, hm, hw, hl, _⟩ := runLoop_inv O fast thr blocks
+  rw [hl, hw, List.flatten_append, List.length_append,
+    flatten_length_map_congr (blocks.take m) _ (·.msg) (fun b _ => processBlock_length O hlen fast b),
+    ← List.length_append, ← List.flatten_append, ← List.map_append, List.take_append_drop]
+
+theorem whole_body_length_le (O : Ops)
+    (hlen : ∀ k m e m' e', O.dec k m e = some (m', e') → m'.length = m.length)
+    (fast : Bool) (thr : Nat) (blocks : List AsmBlock) :
+    (runLoop O fast thr blocks).written.flatten.length ≤ ((blocks.map (·.msg)).flatten).length := by
+  obtain ⟨m, hm, hw, hl, _⟩ := runLoop_inv O fast thr blocks
+  rw [hw,
+    flatten_length_map_congr (blocks.take m) _ (·.msg) (fun b _ => processBlock_length O hlen fast b)]
+  exact flatten_length_take_le blocks (·.msg) m
+
+/-- what the header tool writes, when it writes something -/
+theorem correctHeaderFile_output (O : Ops) (fast : Bool) (thr k hashLen mbs readLen : Nat)
+    (content track out : Bytes)
+    (h : (correctHeaderFile O fast thr k hashLen mbs readLen content track).output = some out) :
+    out =
+      ((runLoop O fast thr
+            (assembleHeader k hashLen mbs readLen content track (content.length + 1) 0 0)).written ++
+          ((assembleHeader k hashLen mbs readLen content track (content.length + 1) 0 0).drop
+            (runLoop O fast thr
+              (assembleHeader k hashLen mbs readLen content track (content.length + 1) 0 0)).written.length).map
+            (·.msg)).flatten ++
+        content.drop
+          (((assembleHeader k hashLen mbs readLen content track (content.length + 1) 0 0).map
+            (·.msg)).flatten).length := by
+  unfold correctHeaderFile at h
+  simp only at h
+  split at h
+  · simp only [Option.some.injEq] at h
+    exact h.symm
+  · cases h
+
+/-- what the whole-file tool writes, when it writes something -/
+theorem correctWholeFile_output (O : Ops) (fast : Bool) (thr : Nat) (kOf : Nat → Nat)
+    (hashLen mbs : Nat) (content track out : Bytes)
+    (h : (correctWholeFile O fast thr kOf hashLen mbs content track).output = some out) :
+    out =
+      (runLoop O fast thr
+          (assemble kOf hashLen mbs content track (content.length + 1) 0 0)).written.flatten ++
+        content.drop
+          (runLoop O fast thr
+            (assemble kOf hashLen mbs content track (content.length + 1) 0 0)).written.flatten.length := by
+  unfold correctWholeFile at h
+  simp only at h
+  split at h
+  · split at h
+    · simp only [Option.some.injEq] at h
+      exact h.symm
+    · cases h
+  · cases h
+
+/-! ## exit status -/
+
+theorem filter_complete_le (rs : List FileResult)
+    (hwf : ∀ r ∈ rs, r.complete = true → r.corrupted = true) :
+    (rs.filter (·.complete)).length ≤ (rs.filter (·.corrupted)).length := by
+  induction rs with
+  | nil => exact Nat.le_refl _
+  | cons r rs ih =>
+    have ih' := ih (fun x hx => hwf x (List.mem_cons_of_mem _ hx))
+    have hr := hwf r List.mem_cons_self
+    simp only [List.filter_cons]
+    cases hc : r.complete with
+    | true =>
+      rw [hr hc]
+      simp only [if_true, List.length_cons]
+      omega
+    | false =>
+      simp only [Bool.false_eq_true, if_false]
+      split
+      · simp only [List.length_cons]; omega
+      · exact ih'
+
+theorem filter_complete_lt (rs : List FileResult)
+    (hwf : ∀ r ∈ rs, r.complete = true → r.corrupted = true)
+    (h : ∃ r ∈ rs, r.corrupted = true ∧ r.complete = false) :
+    (rs.filter (·.complete)).length < (rs.filter (·.corrupted)).length := by
+  induction rs with
+  | nil =>
+    obtain ⟨r, hr, _⟩ := h
+    cases hr
+  | cons r rs ih =>
+    have hwf' : ∀ x ∈ rs, x.complete = true → x.corrupted = true :=
+      fun x hx => hwf x (List.mem_cons_of_mem _ hx)
+    have hle := filter_complete_le rs hwf'
+    have hr := hwf r List.mem_cons_self
+    obtain ⟨x, hx, hx1, hx2⟩ := h
+    simp only [List.filter_cons]
+    rcases List.mem_cons.mp hx with rfl | hx'
+    · rw [hx1, hx2]
+      simp only [Bool.false_eq_true, if_false, if_true, List.length_cons]
+      omega
+    · have ih' := ih hwf' ⟨x, hx', hx1, hx2⟩
+      cases hc : r.complete with
+      | true =>
+        rw [hr hc]
+        simp only [if_true, List.length_cons]
+        omega
+      | false =>
+        simp only [Bool.false_eq_true, if_false]
+        split
+        · simp only [List.length_cons]; omega
+        · exact ih'
+
+theorem exitStatus_one (rs : List FileResult)
+    (hwf : ∀ r ∈ rs, r.complete = true → r.corrupted = true)
+    (h : ∃ r ∈ rs, r.corrupted = true ∧ r.complete = false) : exitStatus rs = 1 := by
+  have hlt := filter_complete_lt rs hwf h
+  unfold exitStatus
+  simp only
+  rw [if_neg]
+  omega
+
+/-! ## truncated track (C13) -/
+
+/-- reading `m` bytes at `e` is not affected by cutting the track at `c` when the bytes actually
+read end at or before `c` -/
+theorem take_drop_take_eq (t : Bytes) (c e m : Nat)
+    (h : t.length ≤ e ∨ e + min m (t.length - e) ≤ c) :
+    ((t.take c).drop e).take m = (t.drop e).take m := by
+  rcases h with h | h
+  · rw [List.drop_eq_nil_of_le h, List.drop_eq_nil_of_le (by rw [List.length_take]; omega)]
+  · rw [List.drop_take, List.take_take, List.take_eq_take_iff, List.length_drop]
+    omega
+
+theorem assemble_nil_of_ge (kOf : Nat → Nat) (hashLen mbs : Nat) (content track : Bytes)
+    (fuel cur e : Nat) (h : track.length ≤ e) :
+    assemble kOf hashLen mbs content track fuel cur e = [] := by
+  cases fuel with
+  | zero => rfl
+  | succ fuel =>
+    simp only [assemble]
+    rw [if_neg (by omega)]
+
+theorem assemble_nil_of_empty (kOf : Nat → Nat) (hashLen mbs : Nat) (content track : Bytes)
+    (fuel cur e : Nat) (h : ((content.drop cur).take (kOf cur)).isEmpty = true) :
+    assemble kOf hashLen mbs content track (fuel + 1) cur e = [] := by
+  simp only [assemble]
+  rw [if_pos h, ite_self]
+
+theorem assemble_cons (kOf : Nat → Nat) (hashLen mbs : Nat) (content track : Bytes)
+    (fuel cur e : Nat) (h1 : e < track.length)
+    (h2 : ¬ ((content.drop cur).take (kOf cur)).isEmpty = true) :
+    assemble kOf hashLen mbs content track (fuel + 1) cur e =
+      { off := cur, msg := (content.drop cur).take (kOf cur), k := kOf cur,
+        hash := ((track.drop e).take (hashLen + (mbs - kOf cur))).take hashLen,
+        ecc := ((track.drop e).take (hashLen + (mbs - kOf cur))).drop hashLen } ::
+        assemble kOf hashLen mbs content track fuel
+          (cur + ((content.drop cur).take (kOf cur)).length)
+          (e + ((track.drop e).take (hashLen + (mbs - kOf cur))).length) := by
+  simp only [assemble]
+  rw [if_pos h1, if_neg h2]
+
+/-- whole-file tool: the blocks whose hash+parity end at or before the cut `c` are assembled
+identically from the truncated track -/
+theorem assemble_take_prefix (kOf : Nat → Nat) (hashLen mbs : Nat) (content track : Bytes) (c : Nat)
+    (hpos : ∀ x, 1 ≤ hashLen + (mbs - kOf x)) :
+    ∀ fuel j cur e,
+      e + (((assemble kOf hashLen mbs content track fuel cur e).take j).map
+            (fun b => b.hash.length + b.ecc.length)).sum ≤ c →
+      (assemble kOf hashLen mbs content (track.take c) fuel cur e).take j =
+        (assemble kOf hashLen mbs content track fuel cur e).take j := by
+  intro fuel
+  induction fuel with
+  | zero => intro j cur e _; rfl
+  | succ fuel ih =>
+    intro j cur e hj
+    cases j with
+    | zero => simp only [List.take_zero]
+    | succ j =>
+      by_cases h1 : e < track.length
+      · by_cases h2 : ((content.drop cur).take (kOf cur)).isEmpty = true
+        · rw [assemble_nil_of_empty kOf hashLen mbs content track _ _ _ h2,
+            assemble_nil_of_empty kOf hashLen mbs content (track.take c) _ _ _ h2]
+        · rw [assemble_cons kOf hashLen mbs content track _ _ _ h1 h2] at hj ⊢
+          simp only [List.take_succ_cons, List.map_cons, List.sum_cons, List.length_take,
+            List.length_drop] at hj
+          have hp := hpos cur
+          have h1' : e < (track.take c).length := by rw [List.length_take]; omega
+          have hbuf : ((track.take c).drop e).take (hashLen + (mbs - kOf cur)) =
+              (track.drop e).take (hashLen + (mbs - kOf cur)) :=
+            take_drop_take_eq _ _ _ _ (Or.inr (by omega))
+          rw [assemble_cons kOf hashLen mbs content (track.take c) _ _ _ h1' h2, hbuf, List.take_succ_cons, List.take_succ_cons,
+            ih j _ _ (by simp only [List.length_take, List.length_drop]; omega)]
+      · rw [assemble_nil_of_ge kOf hashLen mbs content track _ _ _ (by omega),
+          assemble_nil_of_ge kOf hashLen mbs content (track.take c) _ _ _
+            (by rw [List.length_take]; omega)]
+
+theorem assembleHeader_nil_of_ge (k hashLen mbs readLen : Nat) (content track : Bytes)
+    (fuel i j : Nat) (h : ¬ (i < (content.take readLen).length ∧ j < track.length)) :
+    assembleHeader k hashLen mbs readLen content track fuel i j = [] := by
+  cases fuel with
+  | zero => rfl
+  | succ fuel =>
+    simp only [assembleHeader]
+    rw [if_neg h]
+
+theorem assembleHeader_cons (k hashLen mbs readLen : Nat) (content track : Bytes)
+    (fuel i j : Nat) (h : i < (content.take readLen).length ∧ j < track.length) :
+    assembleHeader k hashLen mbs readLen content track (fuel + 1) i j =
+      { off := i, msg := ((content.take readLen).drop i).take k, k := k,
+        hash := (track.drop j).take hashLen,
+        ecc := (track.drop (j + hashLen)).take (mbs - k) } ::
+        assembleHeader k hashLen mbs readLen content track fuel (i + k)
+          (j + hashLen + (mbs - k)) := by
+  simp only [assembleHeader]
+  rw [if_pos h]
+
+/-- header tool: same (the ecc position steps by the nominal chunk size, so the hypothesis is
+generalised to "past the end of the track, or the chunks read so far end before the cut") -/
+theorem assembleHeader_take_prefix (k hashLen mbs readLen : Nat) (content track : Bytes) (c : Nat)
+    (hpos : 1 ≤ hashLen + (mbs - k)) :
+    ∀ fuel j i e,
+      (track.length ≤ e ∨
+        e + (((assembleHeader k hashLen mbs readLen content track fuel i e).take j).map
+              (fun b => b.hash.length + b.ecc.length)).sum ≤ c) →
+      (assembleHeader k hashLen mbs readLen content (track.take c) fuel i e).take j =
+        (assembleHeader k hashLen mbs readLen content track fuel i e).take j := by
+  intro fuel
+  induction fuel with
+  | zero => intro j i e _; rfl
+  | succ fuel ih =>
+    intro j i e hj
+    cases j with
+    | zero => simp only [List.take_zero]
+    | succ j =>
+      by_cases h1 : i < (content.take readLen).length ∧ e < track.length
+      · rw [assembleHeader_cons k hashLen mbs readLen content track _ _ _ h1] at hj ⊢
+        simp only [List.take_succ_cons, List.map_cons, List.sum_cons, List.length_take,
+          List.length_drop] at hj
+        have h1' : i < (content.take readLen).length ∧ e < (track.take c).length := by
+          refine ⟨h1.1, ?_⟩
+          rw [List.length_take]; omega
+        have hh : ((track.take c).drop e).take hashLen = (track.drop e).take hashLen :=
+          take_drop_take_eq _ _ _ _ (Or.inr (by omega))
+        have he : ((track.take c).drop (e + hashLen)).take (mbs - k) =
+            (track.drop (e + hashLen)).take (mbs - k) :=
+          take_drop_take_eq _ _ _ _ (by omega)
+        rw [assembleHeader_cons k hashLen mbs readLen content (track.take c) _ _ _ h1', hh, he, List.take_succ_cons,
+          List.take_succ_cons, ih j _ _ (by omega)]
+      · rw [assembleHeader_nil_of_ge k hashLen mbs readLen content track _ _ _ h1,
+          assembleHeader_nil_of_ge k hashLen mbs readLen content (track.take c) _ _ _
+            (by rw [List.length_take (l := track)]; omega)]
+
 end Pff.Ecc
